@@ -4,3 +4,4 @@ import CapyV.Props.C03
 import CapyV.Props.C22
 import CapyV.Props.C23
 import CapyV.Props.C23Loops
+import CapyV.Props.C26
